@@ -338,6 +338,23 @@ func runC15(c *Ctx, w *World, r *Report) {
 								}
 							}
 						}
+						// 0/1 answered from a test of the stored bit itself: `if Words[k>>6]&Bit[k&63] != 0 { return 1 }; return 0`
+						if kc, _ := constInt64(stripConv(ret.Results[0])); !beyond && strings.HasSuffix(n, ".Get1") && (kc == 0 || kc == 1) {
+							conds := fa.Conds(ret.Block())
+							neg := make([]Cond, len(conds))
+							for i, cd := range conds {
+								neg[i] = Cond{V: cd.V, Pol: !cd.Pol, If: cd.If}
+							}
+							for i := range refs[n] {
+								br := &refs[n][i]
+								if br.Role != ".Words" || br.Write || !br.PosLin.Eq(rel) || !br.Ins.Block().Dominates(ret.Block()) {
+									continue
+								}
+								if kc == 1 && bitKnownSet(conds, br) || kc == 0 && bitKnownSet(neg, br) {
+									beyond = true // not beyond: read
+								}
+							}
+						}
 						if !beyond {
 							bad = fmt.Sprintf("a constant is returned at %s for a position at or above Offset that is not established to lie beyond the stored words (idx - Offset >= 64*len(Words)): a stored bit is answered without being read", w.InstrPos(ret))
 						}
